@@ -141,9 +141,16 @@ func checkNewCall(
 	constructors util.TypeAssociationRegistry,
 	currentFunction string,
 ) *ConstructorViolation {
-	ident, ok := call.Fun.(*ast.Ident)
+	ident, ok := ast.Unparen(call.Fun).(*ast.Ident)
 	if !ok || ident.Name != "new" {
 		return nil
+	}
+
+	// A function, parameter or variable named "new" shadows the builtin and allocates nothing
+	if obj := pass.TypesInfo.Uses[ident]; obj != nil {
+		if _, isBuiltin := obj.(*types.Builtin); !isBuiltin {
+			return nil
+		}
 	}
 
 	if len(call.Args) != 1 {
